@@ -369,6 +369,12 @@ def literals(ctx):
         ('select cardinality lower-cased / verbatim',
          (ap + '.accept_SelectFromNode', "self.new('ACT_FIO', is_implicit=implicit, cardinality=node.cardinality.lower())"),
          (tg + '.accept_ACT_FIO', "self.buf('select ', inst.cardinality, ' ')")),
+        ('select-where cardinality lower-cased / verbatim',
+         (ap + '.accept_SelectFromWhereNode', "self.new('ACT_FIW', is_implicit=implicit, cardinality=node.cardinality.lower())"),
+         (tg + '.accept_ACT_FIW', "self.buf('select ', inst.cardinality, ' ')")),
+        ('select-related cardinality (any / one / many) lower-cased / verbatim',
+         (ap + '.act_sel', "self.new('ACT_SEL', is_implicit=implicit, cardinality=node.cardinality.lower())"),
+         (tg + '.accept_ACT_SEL', "self.buf('select ', inst.cardinality, ' ')")),
         ('variable name verbatim', (ap + '.v_int', 'self.v_var(node, Name=name)'), (tg + '.accept_V_VAR', 'self.buf(inst.Name)')),
         ('parameter name verbatim', (ap + '.accept_ParameterNode', "self.new('V_PAR', Name=node.name)"), (tg + '.accept_V_PAR', "self.buf(inst.Name, ': ')")),
     ]
